@@ -230,7 +230,18 @@ func init() {
 		Real: []string{"every discovered *pb.ModelServer / MemoryDevice with a Get/Update/Pull triple", "pkg/resource"}, Stub: []string{"caller tasks"}})
 }
 
-func linServersRun(w *World) {
+// stack-serial: the same through client -> wrapper -> router -> wrapper -> server, for C14: what the clients are told and
+// what Get returns afterwards is what the successful Updates, one after the other in some order, make of a server of
+// that kind - a rejected Update has contributed nothing.
+func init() {
+	register(&Scenario{Name: "stack-serial", Prop: "C14", Doc: "a tape-chosen discovered server behind wrapper -> router -> wrapper: 2-3 clients issue 1-2 generated Updates each (messages, update masks, relative flags) at the same time; Get afterwards returns what a second instance of the server returns after the successful Updates alone, applied one after the other in some order (all orders tried; at most 4 successful Updates)",
+		Run:  func(w *World) { linServersRunVia(w, true) },
+		Real: []string{"every discovered *pb.ModelServer / MemoryDevice with a Get/Update/Pull triple", "generated routers and wrappers", "pkg/wrap", "pkg/router", "pkg/resource"}, Stub: []string{"client tasks"}})
+}
+
+func linServersRun(w *World) { linServersRunVia(w, false) }
+
+func linServersRunVia(w *World, viaStack bool) {
 	triplesOnce.Do(discoverTriples)
 	t := w.Tape
 	if len(triples) == 0 {
@@ -240,23 +251,44 @@ func linServersRun(w *World) {
 	caseName := fmt.Sprintf("%s %s/%s", tr.what, tr.entry.Desc.ServiceName, tr.x)
 	w.Mix(caseName)
 	w.MarkNontrivial()
-	srv := reflect.ValueOf(tr.server())
+	server, knownIDs := provision(tr.server())
+	srv := reflect.ValueOf(server)
 	upd, get := srv.MethodByName(string(tr.update.Name())), srv.MethodByName(string(tr.get.Name()))
 	if !upd.IsValid() || !get.IsValid() {
 		return
+	}
+	const dev = "dev1"
+	var conn grpc.ClientConnInterface
+	if viaStack {
+		inner, _ := tr.entry.Wrap(server)
+		routerSrv, r := tr.entry.NewRouter()
+		r.Add(dev, inner)
+		_, conn = tr.entry.Wrap(routerSrv)
+	}
+	full := func(m protoreflect.MethodDescriptor) string {
+		return "/" + tr.entry.Desc.ServiceName + "/" + string(m.Name())
 	}
 	p := &prng{s: uint64(1 + t.Choose(1<<20))}
 	var topFields []string
 	for i := 0; i < tr.resource.Fields().Len(); i++ {
 		topFields = append(topFields, string(tr.resource.Fields().Get(i).Name()))
 	}
-	cur := func() proto.Message {
+	curOn := func(get reflect.Value, direct bool) proto.Message {
+		if viaStack && !direct {
+			req, resp := newMsg(tr.get.Input()), newMsg(tr.get.Output())
+			setName(req, dev)
+			if err := conn.Invoke(context.Background(), full(tr.get), req, resp); err != nil {
+				return nil
+			}
+			return resp
+		}
 		res := get.Call([]reflect.Value{reflect.ValueOf(context.Background()), reflect.ValueOf(newMsg(tr.get.Input()))})
 		if m, ok := res[0].Interface().(proto.Message); ok && !res[0].IsNil() {
 			return proto.Clone(m)
 		}
 		return nil
 	}
+	cur := func() proto.Message { return curOn(get, false) }
 	before := cur()
 	if before == nil {
 		return
@@ -274,6 +306,7 @@ func linServersRun(w *World) {
 			req := newMsg(tr.update.Input())
 			val := newMsg(tr.resource)
 			fillMessage(val.ProtoReflect(), p, 2)
+			knownID(val, knownIDs, p)
 			// (no tweens: a write that goes on over time is lin-tween's subject)
 			val.ProtoReflect().Range(func(fd protoreflect.FieldDescriptor, _ protoreflect.Value) bool {
 				if fd.Message() != nil && fd.Message().FullName() == "smartcore.types.Tween" {
@@ -295,6 +328,16 @@ func linServersRun(w *World) {
 		w.Go(fmt.Sprintf("c%d", i), false, func(task *Task) {
 			for _, c := range mine {
 				task.Yield("op")
+				if viaStack {
+					req, resp := proto.Clone(c.req), newMsg(tr.update.Output())
+					setName(req, dev)
+					if err := conn.Invoke(context.Background(), full(tr.update), req, resp); err != nil {
+						c.err = err
+					} else {
+						c.resp = resp
+					}
+					continue
+				}
 				res := upd.Call([]reflect.Value{reflect.ValueOf(context.Background()), reflect.ValueOf(proto.Clone(c.req))})
 				if e, ok := res[1].Interface().(error); ok && e != nil {
 					c.err = e
@@ -317,15 +360,70 @@ func linServersRun(w *World) {
 		return
 	}
 	okCalls := 0
+	explained := false
+	var good []*call
 	for _, c := range calls {
 		if c.err == nil && c.resp != nil {
 			okCalls++
+			good = append(good, c)
 			if proto.Equal(c.resp, after) {
-				return
+				explained = true
 			}
 		}
 	}
 	if okCalls == 0 && proto.Equal(before, after) {
+		explained = true
+	}
+	if explained {
+		// The state is the response of one of the successful calls. Is it also what those calls alone make of the server,
+		// in some order? (A call that was refused must not have contributed; a second instance of the server - never
+		// called by two callers at once - is given the successful requests one after the other, in every order.)
+		if len(good) == 0 || len(good) > 4 {
+			return
+		}
+		var tried []string
+		perm := make([]int, len(good))
+		for i := range perm {
+			perm[i] = i
+		}
+		var rec func(k int) bool
+		rec = func(k int) bool {
+			if k == len(perm) {
+				rsrvAny, _ := provision(tr.server())
+				rsrv := reflect.ValueOf(rsrvAny)
+				rupd, rget := rsrv.MethodByName(string(tr.update.Name())), rsrv.MethodByName(string(tr.get.Name()))
+				for _, i := range perm {
+					_ = rupd.Call([]reflect.Value{reflect.ValueOf(context.Background()), reflect.ValueOf(proto.Clone(good[i].req))})
+				}
+				ref := curOn(rget, true)
+				// (time stamps are readings of the clock at the moment of the call: not compared)
+				if ref != nil && !significantlyDifferent(stripTimes(ref).ProtoReflect(), stripTimes(after).ProtoReflect(), 2) {
+					return true
+				}
+				tried = append(tried, fmt.Sprintf("order %v -> %v", perm, ref))
+				return false
+			}
+			for i := k; i < len(perm); i++ {
+				perm[k], perm[i] = perm[i], perm[k]
+				if rec(k + 1) {
+					return true
+				}
+				perm[k], perm[i] = perm[i], perm[k]
+			}
+			return false
+		}
+		if rec(0) {
+			return
+		}
+		var rs []string
+		for _, c := range calls {
+			rs = append(rs, fmt.Sprintf("%v -> %v %v", c.req, c.resp, c.err))
+		}
+		class := "lost-update"
+		if viaStack {
+			class = "serial-reference"
+		}
+		w.Violate(class, fmt.Sprintf("%s: %d Updates at the same time, %d reported success; Get now returns %v, which is not what the successful ones alone make of a server of this kind in any order (state before: %v)\n  %s\n  %s", caseName, len(calls), okCalls, after, before, strings.Join(rs, "\n  "), strings.Join(tried, "\n  ")), map[string]any{"server": tr.what, "oracle": "serial"})
 		return
 	}
 	var rs []string
@@ -333,4 +431,37 @@ func linServersRun(w *World) {
 		rs = append(rs, fmt.Sprintf("%v -> %v %v", c.req, c.resp, c.err))
 	}
 	w.Violate("lost-update", fmt.Sprintf("%s: %d Updates at the same time, %d reported success; Get now returns %v, which is the response of none of them (state before: %v)\n  %s", caseName, len(calls), okCalls, after, before, strings.Join(rs, "\n  ")), map[string]any{"server": tr.what})
+}
+
+// stripTimes returns a copy of m without its google.protobuf.Timestamp fields (at any depth).
+func stripTimes(m proto.Message) proto.Message {
+	c := proto.Clone(m)
+	var walk func(pm protoreflect.Message)
+	walk = func(pm protoreflect.Message) {
+		pm.Range(func(fd protoreflect.FieldDescriptor, v protoreflect.Value) bool {
+			if fd.Message() == nil {
+				return true
+			}
+			if fd.Message().FullName() == "google.protobuf.Timestamp" && !fd.IsList() && !fd.IsMap() {
+				pm.Clear(fd)
+				return true
+			}
+			switch {
+			case fd.IsList():
+				l := v.List()
+				for i := 0; i < l.Len(); i++ {
+					walk(l.Get(i).Message())
+				}
+			case fd.IsMap():
+				if fd.MapValue().Message() != nil {
+					v.Map().Range(func(_ protoreflect.MapKey, mv protoreflect.Value) bool { walk(mv.Message()); return true })
+				}
+			default:
+				walk(v.Message())
+			}
+			return true
+		})
+	}
+	walk(c.ProtoReflect())
+	return c
 }
